@@ -326,6 +326,10 @@ func blockOnListChangeWorker(
 	verifPoint("after-register", ctx.cs.id, ws.id)
 	defer ctx.dsc.ds.leaveListBlock(ws)
 
+	// pushes done by this command itself must wake the other waiters, not this client
+	ctx.dsc.waiting = ws
+	defer func() { ctx.dsc.waiting = nil }()
+
 	// with notification registered, try operation again immediately
 	output = op()
 	if output.data != nil {
